@@ -17,7 +17,7 @@ HIST = GL.Profile(max_surfs=5, shapes=['standard', 'standard', 'even_asphere'], 
 f = st.floats
 sel = st.integers(0, 1000)
 
-CALLS = ['trace', 'trace_generic_scalar', 'trace_generic_array', 'paraxial', 'aberrations', 'wavefront', 'psf', 'mtf',
+CALLS = ['trace', 'trace_object', 'trace_generic_scalar', 'trace_generic_array', 'paraxial', 'aberrations', 'wavefront', 'psf', 'mtf',
          'spot', 'rayfan', 'encircled', 'distortion', 'grid_distortion', 'field_curvature', 'rms_spot_field',
          'rms_wave_field', 'pupil_aberration', 'paraxial_trace', 'zernike_opd', 'geometric_mtf']
 
@@ -63,7 +63,7 @@ def lens_state(o):
     return json.dumps(o.to_dict(), sort_keys=True, default=lambda v: np.asarray(v).tolist())
 
 
-def do_call(o, c, spec, keep_args=None):
+def do_call(o, c, spec, keep_args=None, env=None):
     """Executes one call and returns its canonical result."""
     name = c['call']
     wls = o.wavelengths.get_wavelengths()
@@ -76,6 +76,23 @@ def do_call(o, c, spec, keep_args=None):
         r = o.trace(0.0, float(c['h']), w, n, dist)
         sg = o.surface_group
         return flat([r.x, r.y, r.z, r.L, r.M, r.N, r.i, r.opd, sg.x, sg.y, sg.z, sg.L, sg.M, sg.N, sg.intensity, sg.opd])
+    if name == 'trace_object':
+        # the caller's own Distribution object, kept and reused through the history
+        from optiland.distribution import create_distribution
+        kind = ['hexapolar', 'uniform', 'line_y', 'cross', 'ring'][c['a'] % 5]
+        n = 3 + c['b'] % 4
+        env = env if env is not None else {}
+        d = env.get((kind, n))
+        if d is None:
+            d = create_distribution(kind)
+            d.generate_points(n)
+            env[(kind, n)] = d
+        x0, y0 = np.array(d.x, dtype=float).copy(), np.array(d.y, dtype=float).copy()
+        r = o.trace(0.0, float(c['h']), w, n, d)
+        if keep_args is not None:
+            keep_args.append(([np.asarray(d.x, dtype=float), np.asarray(d.y, dtype=float)], [x0, y0]))
+        sg = o.surface_group
+        return flat([r.x, r.y, r.z, r.L, r.M, r.N, r.i, r.opd, sg.x, sg.y, sg.z])
     if name == 'trace_generic_scalar':
         r = o.trace_generic(0.0, float(c['h']), float(c['px']) * 0.7, float(c['py']) * 0.7, w)
         sg = o.surface_group
@@ -163,7 +180,7 @@ class C13(Check):
     pid = 'C13'
     title = 'Tracing and analysis are repeatable and free of side effects'
     rule = ('cases: a generated imaging lens (with vignetting factors, simple coatings, optional polarization state) and a '
-            'generated history of 4-14 calls from {trace (5 distributions), trace_generic scalar/array, paraxial accessors, '
+            'generated history of 4-14 calls from {trace (5 distributions, by name or as a caller-owned Distribution object kept through the history), trace_generic scalar/array, paraxial accessors, '
             'aberrations, Wavefront, ZernikeOPD, FFTPSF, FFTMTF, GeometricMTF, SpotDiagram, RayFan, EncircledEnergy, '
             'Distortion, GridDistortion, FieldCurvature, RmsSpotSizeVsField, RmsWavefrontErrorVsField, PupilAberration, '
             'paraxial.trace}; invariants after every call: (i) serialised lens unchanged, (ii) a repeated call returns '
@@ -175,7 +192,7 @@ class C13(Check):
                    'batch independence tolerance: max(10 x surface tol, 1e-12 L) (exact up to 1e-12 L for closed forms)']
 
     def budget(self, tier):
-        return (50, 8) if tier == 'quick' else (700, 16)
+        return (100, 8) if tier == 'quick' else (700, 16)
 
     def strategy(self, tier):
         return st.fixed_dictionaries(dict(spec=GL.lens_spec(HIST, min_surfs=2, force_infinite=None),
@@ -213,12 +230,13 @@ class C13(Check):
         repeated_after_other = False
         last_key = None
         twins_done = 0
+        env = {}
         Lsc = max(1.0, sum(abs(s['t']) for s in spec['surfs']))
         for step, c in enumerate(seq, start=1):
             key = call_key(c)
             keep = []
             try:
-                res = do_call(o, c, spec, keep)
+                res = do_call(o, c, spec, keep, env)
             except ValueError as e:
                 if 'Chebyshev' in str(e):
                     return
